@@ -269,7 +269,7 @@ theorem read_chars_spec (g : Nat → Nat → Nat) (hg : ∀ n c, n ≤ g n c) {h
 
 /-- Strong guarantee, for every failure schedule `i`: when an operation on one vector other than the single-pass range insert
 (push_back, the three inserts incl. own ranges, resize, reserve, shrink_to_fit, …) or an operation on one buffer
-(`resize_write_area`, `append_from`, `append_from_opt`) throws, heap and all registers are exactly as before — so the ownership
+(`resize_write_area`, `append_from`, `append_from_opt`) throws, heap and all registers are exactly as before (constructors: `ctor_failure_no_leak`) — so the ownership
 invariant still holds (no dangling register, no double free, no leak at `finish`), for the same specification state. -/
 theorem alloc_failure_strong_guarantee (i : Inj) (g : Nat → Nat → Nat) {st st' : St} {ss : SSt} (G : GInv st ss) (o : Op)
     (ho : (∃ r vo, o = .v r vo ∧ ∀ pos xs, vo ≠ .insertRange pos xs false) ∨ ∃ k bo, o = .b k bo) (ret : Option Nat)
@@ -304,6 +304,42 @@ theorem alloc_failure_strong_guarantee (i : Inj) (g : Nat → Nat → Nat) {st s
       simp only [pure_eq_ok, Except.ok.injEq, Prod.mk.injEq, Out.threw.injEq] at he
       obtain ⟨rfl, _⟩ := he
       exact fin rfl rfl (upd_self _ _)
+
+/-- A throwing constructor (count, forward / single-pass range, initializer_list; any schedule): the register holds no object
+(null pointers), every other register is untouched, and every slot of the heap is as it was once the register's previous
+object had been destroyed (`h1`) — in particular what the single-pass insertion had allocated before the failing allocation
+has been given back (fix db1a7e0). The ownership invariant holds again: no dangling register, no double free, no leak. -/
+theorem ctor_failure_no_leak (i : Inj) (g : Nat → Nat → Nat) (hg : ∀ n c, n ≤ g n c) {st st' : St} {ss : SSt} (G : GInv st ss)
+    (r : Nat) (c : Ctor) (ret : Option Nat) (he : stepF i g st (.ctor r c) = .ok (.threw st', ret)) :
+    ∃ h1, deallocate st.heap (st.vec r) = .ok h1 ∧ (∀ j, st'.heap.slot j = h1.slot j) ∧
+      st'.vec = upd st.vec r RV.null ∧ st'.buf = st.buf ∧ GInv st' ⟨upd ss.vec r [], ss.buf⟩ := by
+  have hwf := G.ledger.wf
+  obtain ⟨h1, hd, hf1⟩ := destroy_spec hwf (G.vec r)
+  have hd' := hd
+  simp only [stepF, hd, ok_bind, bind_eq_ok] at he
+  obtain ⟨⟨x, i'⟩, hx, he⟩ := he
+  cases x with
+  | done y => simp only [pure_eq_ok, Except.ok.injEq, Prod.mk.injEq] at he; obtain ⟨hc, _⟩ := he; cases hc
+  | threw y =>
+    obtain ⟨h2, v2⟩ := y
+    obtain ⟨rfl, hf2⟩ := constructF_threw g hg hf1.wf c hx
+    simp only [pure_eq_ok, Except.ok.injEq, Prod.mk.injEq, Out.threw.injEq] at he
+    obtain ⟨rfl, _⟩ := he
+    refine ⟨h1, hd', fun j => hf2.other j (by simp) (by simp), rfl, rfl, ?_⟩
+    exact ginv_update_vec G r (v' := RV.null) (Frame.trans hwf ((G.vec r).base_lt hwf) hf1 hf2) (Owns.null h2)
+
+/-- the range constructor before fix db1a7e0 (`catchRange := false`) is refuted: when the single-pass insertion throws at its
+second allocation, the block the first insertion allocated stays live although no object exists; the fixed constructor gives
+it back -/
+example :
+    (do let r ← constructF ⟨some 2, none⟩ growth Heap.empty (.range [1, 2, 3] false) false
+        match r.1 with
+        | .threw s => pure (s.1.liveCount, s.2.base.isSome)
+        | .done _ => pure (99, false)) = Except.ok (1, true) ∧
+    (do let r ← constructF ⟨some 2, none⟩ growth Heap.empty (.range [1, 2, 3] false)
+        match r.1 with
+        | .threw s => pure (s.1.liveCount, s.2.base.isSome)
+        | .done _ => pure (99, false)) = Except.ok (0, false) := ⟨by rfl, by rfl⟩
 
 /-- a history in which allocations fail, evaluated with the code's policy: a failing `reserve` on an emptied vector that still
 owns its store, a failing `shrink_to_fit`, a failing reallocating `push_back`, the single-pass insert failing at its second
